@@ -632,6 +632,18 @@ def run(ctx):
                                      {"decl": "namespace tail", "declarations": [{"decl": "int t()"}]}]},
                    open(nsy, "w"), sort_keys=False)
     descs = descs + [("gen-nested-ns", nsy, [])]
+    # wrappers switched on by single declarations only (the library-level options leave Python, Lua and Fortran off): the splicer
+    # files of those languages still reach their blocks
+    dld = os.path.join(ctx.bdir, "dlwlib")
+    os.makedirs(dld, exist_ok=True)
+    dly = os.path.join(dld, "dlwlib.yaml")
+    yaml.safe_dump({"library": "dlwlib", "cxx_header": "dlwlib.hpp", "options": {"wrap_python": False, "wrap_lua": False, "wrap_fortran": False},
+                    "declarations": [{"decl": "int answer()", "options": {"wrap_python": True, "wrap_lua": True, "wrap_fortran": True}},
+                                     {"decl": "void plain(int a)"},
+                                     {"decl": "class Box", "options": {"wrap_python": True, "wrap_fortran": True},
+                                      "declarations": [{"decl": "Box()"}, {"decl": "int width() const"}]}]},
+                   open(dly, "w"), sort_keys=False)
+    descs = descs + [("gen-decl-level-wrap", dly, [])]
     fails = e2e(ctx, descs, bad_rate=0.12) + decl_route(ctx, bad_rate=0.2)
     for f in fails:
         keys = classify(f)
